@@ -167,6 +167,16 @@ func checkC15(c *core.Ctx) []core.Floor {
 		}
 		largeSpecs = append(largeSpecs, lruseq.Spec{Cap: capn, Keys: capn + r.Range(5, capn), Prefill: capn, Steps: r.Range(400, 2000), Every: every, Seed: r.U64(), Dirty: []int{100, 97, 90}[r.Intn(3)]})
 	}
+	// long runs of stores of pages that were never resident, with no lookup in
+	// between (a table scan over cold pages), on a full cache
+	nScan := 8
+	if !core.Quick(c) {
+		nScan = 240
+	}
+	for i := 0; i < nScan; i++ {
+		capn := []int{300, 1000, 2100, 3000, 5000, 10000, 64, 4096}[i%8]
+		largeSpecs = append(largeSpecs, lruseq.Spec{Cap: capn, Keys: capn + r.Range(10, 200), Prefill: capn, Steps: r.Range(50, 300), Every: 200, Seed: r.U64(), Dirty: []int{0, 10, 40}[r.Intn(3)], Scan: r.Range(2100, 9000)})
+	}
 	// random specs are grouped so that one driver process runs many
 	type job struct {
 		specs []lruseq.Spec
@@ -243,6 +253,8 @@ func checkC15(c *core.Ctx) []core.Floor {
 			c.Count("lookup_misses", st.misses)
 			if sp.Depth > 0 {
 				c.Count(fmt.Sprintf("exhaustive_depth%d_keys%d_cap%d_sequences", sp.Depth, sp.Keys, sp.Cap), int64(sp.Hi-sp.Lo))
+			} else if sp.Scan > 0 {
+				c.Count("sequences_with_thousands_of_cold_stores_in_a_row", 1)
 			} else if sp.Prefill > 0 && sp.Cap < 4096 {
 				c.Count("sequences_on_a_cache_filled_with_dirty_pages_capacity_33_to_2000", 1)
 			} else if sp.Prefill > 0 {
@@ -259,7 +271,7 @@ func checkC15(c *core.Ctx) []core.Floor {
 		c.Extra(fmt.Sprintf("exhaustive_scope_depth%d_keys%d", e.depth, e.keys), fmt.Sprintf("all %d sequences x capacities 0..3", lruseq.Count(e.depth, e.keys)))
 	}
 	c.Sample(3, map[string]interface{}{"exhaustive_example": fmt.Sprint(lruseq.Enum(12345, exh[0].depth, exh[0].keys)), "random_example_prefix": fmt.Sprint(lruseq.Random(7, 12, 6, 50))})
-	return []core.Floor{{Key: "evictions_in_model", Min: 1000}, {Key: "refusals_in_model", Min: 100}, {Key: "dirty_entries_skipped_by_eviction", Min: 100}, {Key: "random_sequences", Min: int64(nRandom)}, {Key: "sequences_at_the_default_capacity_of_10000", Min: 4}}
+	return []core.Floor{{Key: "evictions_in_model", Min: 1000}, {Key: "refusals_in_model", Min: 100}, {Key: "dirty_entries_skipped_by_eviction", Min: 100}, {Key: "random_sequences", Min: int64(nRandom)}, {Key: "sequences_at_the_default_capacity_of_10000", Min: 4}, {Key: "sequences_with_thousands_of_cold_stores_in_a_row", Min: 6}}
 }
 
 var c15Reports int64
